@@ -22,6 +22,7 @@ CONSTANTS
   WsLens,     \* set of lengths of whitespace-only lines (in characters of Unit[1]); {} = none
   Blank,      \* TRUE: empty lines allowed
   Suffix,     \* text appended to every code line (e.g. a multi-byte character), <<>> for none
+  EOL,        \* line terminator, <<NL>> or <<CR, NL>> (CRLF documents: the code knows only NL, CR is an ordinary character)
   Preamble,   \* number of filler code lines "p<i>;" in front of the generated document (pushes line numbers up)
   InlineTags, \* TRUE: an opening tag may follow code on its line ("c1; <tag>") and code may follow a closing tag
               \*       ("</tag>d  1;"): elements whose tags share lines with code
@@ -117,10 +118,10 @@ LineTextOf(l) ==
 
 RECURSIVE JoinLines(_, _)
 JoinLines(ls, i) == IF i > Len(ls) THEN <<>>
-                    ELSE LineTextOf(ls[i]) \o (IF i < Len(ls) THEN <<NL>> ELSE <<>>) \o JoinLines(ls, i + 1)
+                    ELSE LineTextOf(ls[i]) \o (IF i < Len(ls) THEN EOL ELSE <<>>) \o JoinLines(ls, i + 1)
 
 RECURSIVE Fillers(_)
-Fillers(i) == IF i > Preamble THEN <<>> ELSE <<112>> \o Digits(i) \o <<59, NL>> \o Fillers(i + 1)            \* p<i>;
+Fillers(i) == IF i > Preamble THEN <<>> ELSE <<112>> \o Digits(i) \o <<59>> \o EOL \o Fillers(i + 1)            \* p<i>;
 
 GenDoc == Fillers(1) \o JoinLines(lines, 1)
 Shape == [i \in 1..Len(lines) |-> <<lines[i].k, lines[i].ind>> \o lines[i].kind]
@@ -128,5 +129,5 @@ Shape == [i \in 1..Len(lines) |-> <<lines[i].k, lines[i].ind>> \o lines[i].kind]
 Complete == stack = <<>> /\ lines # <<>> /\ (nel >= 1 \/ \E i \in 1..Len(lines) : lines[i].k = "pair")
 
 EmitAll == Complete => /\ Emit("", GenDoc)
-                       /\ Emit("", GenDoc \o <<NL>>)
+                       /\ Emit("", GenDoc \o EOL)
 =============================================================================
